@@ -13,8 +13,8 @@ def StepOK {α : Type} [DecidableEq α] [Add α] [LE α] (fill : α → α) (nat
   | .splitPick f i, l, o => SplitOK f l o.parts ∧ o.out = o.parts.getD i []
   | .intersect f other, l, o => IntersectOK fill f l other o.out
   | .dropDup dup dec asc, l, o => DropDupOK (fun v => v) dup dec asc l o.out
-  | .mergeRenumber b a _, l, o => MergeRenumberOK fill nat (rawInputs b a l) o.out
-  | .mergeDropDup b a _, l, o => MergeDropDupOK fill (rawInputs b a l) o.out
+  | .mergeRenumber b a s, l, o => MergeRenumberOK fill nat (rawInputs b a s l) o.out
+  | .mergeDropDup b a s, l, o => MergeDropDupOK fill (rawInputs b a s l) o.out
   | .renumberParticles, l, o => RenumberParticlesOK nat l o.out
   | .renumberObjects start, l, o => RenumberObjectsOK nat start l o.out
 
@@ -58,21 +58,47 @@ theorem checkStep_sound (fill : α → α) (nat : Nat → α) (op : Op α) (l : 
   | renumberObjects start => exact (checkRenumberObjects_iff eqv heqv nat start l o.out).1 h
 
 omit heqv in
-theorem mem_rawInputs (b a : List (Bool × Motl α)) (l m : Motl α) (hm : m ∈ rawInputs b a l) (p : Particle α)
-    (hp : p ∈ m) : p ∈ l ++ ((b.map (·.2)).flatten ++ (a.map (·.2)).flatten) := by
-  unfold rawInputs at hm
-  simp only [List.mem_append, List.mem_singleton] at hm
-  simp only [List.mem_append, List.mem_flatten]
-  rcases hm with (hm | rfl) | hm
-  · exact Or.inr (Or.inl ⟨m, hm, hp⟩)
-  · exact Or.inl hp
-  · exact Or.inr (Or.inr ⟨m, hm, hp⟩)
+theorem mem_rawInputs (b a : List (Bool × Motl α)) (s : Bool) (l : Motl α) (x : Bool × Motl α)
+    (hx : x ∈ rawInputs b a s l) (p : Particle α) (hp : p ∈ x.2) :
+    p ∈ l ++ ((b.map (·.2)).flatten ++ (a.map (·.2)).flatten)
+    ∧ (x.1 = true → (s || (b.any (·.1) || a.any (·.1))) = true) := by
+  unfold rawInputs at hx
+  simp only [List.mem_append, List.mem_singleton] at hx
+  simp only [List.mem_append, List.mem_flatten, List.mem_map]
+  rcases hx with (hx | rfl) | hx
+  · refine ⟨Or.inr (Or.inl ⟨x.2, ⟨x, hx, rfl⟩, hp⟩), fun e => ?_⟩
+    have : b.any (·.1) = true := List.any_eq_true.2 ⟨x, hx, e⟩
+    simp [this]
+  · exact ⟨Or.inl hp, fun e => by simp at e; simp [e]⟩
+  · refine ⟨Or.inr (Or.inr ⟨x.2, ⟨x, hx, rfl⟩, hp⟩), fun e => ?_⟩
+    have : a.any (·.1) = true := List.any_eq_true.2 ⟨x, hx, e⟩
+    simp [this]
+
+omit heqv in
+/-- a member of the shifted inputs is a tagged input, ids read after loading, object numbers moved by one offset -/
+theorem mem_shiftedInputs (fill : α → α) (cs : List α) (ins : List (Bool × Motl α)) (x : Bool × Motl α)
+    (hx : x ∈ shiftedInputs fill cs ins) :
+    ∃ c, ∃ y ∈ ins, x = (y.1, shiftObj c (y.2.map (loadIds (fillIf fill y.1)))) := by
+  unfold shiftedInputs at hx
+  induction cs generalizing ins with
+  | nil => simp at hx
+  | cons c cs ih =>
+    cases ins with
+    | nil => simp at hx
+    | cons y ins =>
+      rw [List.zipWith_cons_cons] at hx
+      rcases List.mem_cons.1 hx with rfl | hx'
+      · exact ⟨c, y, by simp, rfl⟩
+      · obtain ⟨c', y', hy', e⟩ := ih ins hx'
+        exact ⟨c', y', by simp [hy'], e⟩
 
 omit heqv in
 /-- **the history clause for one accepted step**: every row of the REAL result is a row of the REAL
-previous table or of a list the operation brings in, only id fields rewritten -/
+previous table or of a list the operation brings in, only id fields rewritten; a missing value may
+have been filled ONLY by an operation that re-loads a frame (`opFill`): selections, drop-duplicates
+and the renumberings return literal rows -/
 theorem stepOK_rows (fill : α → α) (nat : Nat → α) (op : Op α) (l : Motl α) (o : Obs α)
-    (h : StepOK fill nat op l o) : ∀ q ∈ o.out, ∃ p ∈ l ++ op.sources, Unchanged fill p q := by
+    (h : StepOK fill nat op l o) : ∀ q ∈ o.out, ∃ p ∈ l ++ op.sources, Unchanged (opFill fill op) p q := by
   intro q hq
   cases op with
   | subset f vs =>
@@ -81,10 +107,10 @@ theorem stepOK_rows (fill : α → α) (nat : Nat → α) (op : Op α) (l : Motl
     rw [e] at hq
     obtain ⟨g, hg1, hqg⟩ := List.mem_flatten.1 hq
     obtain ⟨v, _, rfl⟩ := forall2_mem_right hg g hg1
-    exact ⟨q, List.mem_append_left _ (List.mem_filter.1 hqg).1, unchanged_refl fill q⟩
+    exact ⟨q, List.mem_append_left _ (List.mem_filter.1 hqg).1, unchanged_refl _ q⟩
   | remove f vs =>
     have h' : RemoveOK f vs l o.out := h
-    exact ⟨q, List.mem_append_left _ (h'.1.mem_iff.1 (List.mem_append_left _ hq)), unchanged_refl fill q⟩
+    exact ⟨q, List.mem_append_left _ (h'.1.mem_iff.1 (List.mem_append_left _ hq)), unchanged_refl _ q⟩
   | splitPick f i =>
     have h' : SplitOK f l o.parts ∧ o.out = o.parts.getD i [] := h
     rw [h'.2, List.getD_eq_getElem?_getD] at hq
@@ -93,7 +119,7 @@ theorem stepOK_rows (fill : α → α) (nat : Nat → α) (op : Op α) (l : Motl
     | some part =>
       rw [hi] at hq
       have : q ∈ o.parts.flatten := List.mem_flatten.2 ⟨part, List.mem_of_getElem? hi, hq⟩
-      exact ⟨q, List.mem_append_left _ (h'.1.1.mem_iff.1 this), unchanged_refl fill q⟩
+      exact ⟨q, List.mem_append_left _ (h'.1.1.mem_iff.1 this), unchanged_refl _ q⟩
   | intersect f other =>
     have h' : IntersectOK fill f l other o.out := h
     obtain ⟨p, hp, hs⟩ := h'.2 q hq
@@ -103,26 +129,28 @@ theorem stepOK_rows (fill : α → α) (nat : Nat → α) (op : Op α) (l : Motl
     obtain ⟨p, hp, hs⟩ := h'.2.1 q hq
     exact ⟨p, List.mem_append_left _ hp, fun g _ _ => Or.inl ((hs g).elim id id)⟩
   | mergeRenumber b a s =>
-    have h' : MergeRenumberOK fill nat (rawInputs b a l) o.out := h
+    have h' : MergeRenumberOK fill nat (rawInputs b a s l) o.out := h
     obtain ⟨bs, e, hb, _, _⟩ := h'
     rw [e] at hq
     obtain ⟨blk, hblk, hqb⟩ := List.mem_flatten.1 hq
-    obtain ⟨m, hm, hbo⟩ := forall2_mem_right hb blk hblk
+    obtain ⟨x, hx, hbo⟩ := forall2_mem_right hb blk hblk
     obtain ⟨p, hp, hu⟩ := forall2_mem_right hbo.1 q hqb
-    exact ⟨p, mem_rawInputs b a l m hm p hp, hu⟩
+    obtain ⟨hmem, hflag⟩ := mem_rawInputs b a s l x hx p hp
+    exact ⟨p, hmem, unchanged_if_mono fill _ _ hflag p q hu⟩
   | mergeDropDup b a s =>
-    have h' : MergeDropDupOK fill (rawInputs b a l) o.out := h
-    obtain ⟨cs, _, _, hd⟩ := h'
-    obtain ⟨p, hp, hs⟩ := hd.2.1 q hq
-    obtain ⟨blk, hblk, hpb⟩ := List.mem_flatten.1 hp
-    obtain ⟨i, hi, rfl⟩ := List.mem_iff_getElem.1 hblk
-    simp only [List.length_zipWith] at hi
-    rw [List.getElem_zipWith] at hpb
-    obtain ⟨p0, hp0, rfl⟩ := List.mem_map.1 hpb
-    refine ⟨p0, mem_rawInputs b a l _ (List.getElem_mem (by omega)) p0 hp0, ?_⟩
-    intro g _ hg2
+    have h' : MergeDropDupOK fill (rawInputs b a s l) o.out := h
+    obtain ⟨cs, _, _, ht, _⟩ := h'
+    obtain ⟨x, hx, p, hp, hs⟩ := ht q hq
+    obtain ⟨c, y, hy, rfl⟩ := mem_shiftedInputs fill cs _ x hx
+    obtain ⟨p1, hp1, rfl⟩ := List.mem_map.1 hp
+    obtain ⟨p0, hp0, rfl⟩ := List.mem_map.1 hp1
+    obtain ⟨hmem, hflag⟩ := mem_rawInputs b a s l y hy p0 hp0
+    refine ⟨p0, hmem, unchanged_if_mono fill _ _ hflag p0 q ?_⟩
+    intro g hg1 hg2
     have := hs g
-    rwa [Particle.get_set_other _ _ _ _ hg2] at this
+    unfold loadIds at this
+    rwa [Particle.get_set_other _ _ _ _ hg2, Particle.get_set_other _ _ _ _ hg1,
+      Particle.get_set_other _ _ _ _ hg2] at this
   | renumberParticles =>
     have h' : RenumberParticlesOK nat l o.out := h
     obtain ⟨p, hp, hu⟩ := forall2_mem_right h'.2 q hq
@@ -133,25 +161,29 @@ theorem stepOK_rows (fill : α → α) (nat : Nat → α) (op : Op α) (l : Motl
     exact ⟨p, List.mem_append_left _ hp, fun g _ hg2 => Or.inl (hu g hg2)⟩
 
 /-- **an accepted observed history**: every row of the last REAL table is one of the rows that
-entered the history, with only id fields rewritten (a missing value possibly filled) -/
+entered the history, with only id fields rewritten; a missing value may have been filled only if the
+history contains an operation that re-loads a frame (`histFill`) -/
 theorem checkRun_rows (fill : α → α) (nat : Nat → α) (hfill : ∀ v, fill (fill v) = fill v)
     (steps : List (Op α × Obs α)) (l : Motl α) (h : checkRun eqv fill nat steps l = true) :
-    ∀ q ∈ lastOut steps l, ∃ p ∈ l ++ steps.flatMap (fun s => s.1.sources), Unchanged fill p q := by
+    ∀ q ∈ lastOut steps l, ∃ p ∈ l ++ steps.flatMap (fun s => s.1.sources),
+      Unchanged (histFill fill (steps.map (·.1))) p q := by
   induction steps generalizing l with
-  | nil => intro q hq; exact ⟨q, by simpa [lastOut] using hq, unchanged_refl fill q⟩
+  | nil => intro q hq; exact ⟨q, by simpa [lastOut] using hq, unchanged_refl _ q⟩
   | cons s steps ih =>
     obtain ⟨op, o⟩ := s
     simp only [checkRun, Bool.and_eq_true] at h
     intro q hq
     obtain ⟨p1, hp1, hu1⟩ := ih o.out h.2 q (by simpa [lastOut] using hq)
-    rw [List.flatMap_cons]
+    rw [List.flatMap_cons, List.map_cons]
+    have hu1' := unchanged_hist_cons fill op (steps.map (·.1)) p1 q hu1
     rcases List.mem_append.1 hp1 with h1 | h1
     · obtain ⟨p0, hp0, hu0⟩ := stepOK_rows fill nat op l o (checkStep_sound eqv heqv fill nat op l o h.1) p1 h1
-      refine ⟨p0, ?_, unchanged_trans fill hfill p0 p1 q hu0 hu1⟩
+      refine ⟨p0, ?_, unchanged_trans _ (histFill_idem fill hfill _) p0 p1 q
+        (unchanged_op_to_hist fill op (steps.map (·.1)) p0 p1 hu0) hu1'⟩
       rcases List.mem_append.1 hp0 with h0 | h0
       · exact List.mem_append_left _ h0
       · exact List.mem_append_right _ (List.mem_append_left _ h0)
-    · exact ⟨p1, List.mem_append_right _ (List.mem_append_right _ h1), hu1⟩
+    · exact ⟨p1, List.mem_append_right _ (List.mem_append_right _ h1), hu1'⟩
 
 end ring
 end CryoCat.C08
